@@ -4,11 +4,12 @@
 # (demo passes clean / fails patched, pinned suite passes patched), runs the given quick checks against
 # each (tools/tryseed.sh, isolated scratch copy), and stores them as /verif/seeded/<ID>-2a and -2b.
 ID=$1; shift
-W=/tmp/wt/R2$ID
+R=${ROUND:-2}
+W=/tmp/wt/R$R$ID
 export GOFLAGS=-mod=mod GOPROXY=off GOSUMDB=off GOTOOLCHAIN=local
 cd $W || exit 2
 [ -f SEEDED/patchA.diff ] || { echo "no SEEDED/patchA.diff in $W"; exit 2; }
-H=/tmp/wt/hold.R2$ID; rm -rf $H; mkdir -p $H; cp -r SEEDED $H/
+H=/tmp/wt/hold.R$R$ID; rm -rf $H; mkdir -p $H; cp -r SEEDED $H/
 git checkout -q -- . ; rm -rf SEEDED seeded_demo_test.go
 cp $H/SEEDED/seeded_demo_test.go .
 go test -vet=off -count=1 -run 'TestSeededDemo' . > $H/demo_clean.log 2>&1; CLEAN=$?
@@ -32,17 +33,17 @@ PY
   echo "patch$X: demo exit=$DX; $(cat $H/suite_$X.txt)"
   /verif/tools/tryseed.sh $H/SEEDED/patch$X.diff "$@" > $H/checks_$X.txt 2>&1
   sort $H/checks_$X.txt
-  D=/verif/seeded/$ID-2$x; mkdir -p $D
+  D=/verif/seeded/$ID-$R$x; mkdir -p $D
   cp $H/SEEDED/patch$X.diff $D/patch.diff; cp $H/SEEDED/seeded_demo_test.go $D/
-  python3 - $ID $X $CLEAN $DX $H $D <<'PY'
+  python3 - $ID $X $CLEAN $DX $H $D $R <<'PY'
 import json,sys
-ID,X,CLEAN,DX,H,D=sys.argv[1:7]
+ID,X,CLEAN,DX,H,D,R=sys.argv[1:8]
 m=json.load(open(H+'/SEEDED/meta.json'))
-me=dict(property=ID, seeded_id=ID+'-2'+X.lower(), round=2)
+me=dict(property=ID, seeded_id=ID+'-'+R+X.lower(), round=int(R))
 me.update(m.get('patch'+X, {}))
 me['how_verified_by_author_of_change']=m.get('how_verified')
 me['confirmed_by_framework_author']=dict(demo_function='TestSeededDemo'+X, demo_on_clean_tree_exit=int(CLEAN), demo_with_change_exit=int(DX),
-   suite_with_change=open(H+'/suite_%s.txt'%X).read().strip(), where='scratch worktree /tmp/wt/R2%s (removed afterwards)'%ID)
+   suite_with_change=open(H+'/suite_%s.txt'%X).read().strip(), where='scratch worktree /tmp/wt/R%s%s (removed afterwards)'%(R,ID))
 me['framework_checks_run']=[l.strip() for l in open(H+'/checks_%s.txt'%X) if l.startswith('==')]
 json.dump(me,open(D+'/meta.json','w'),indent=1)
 PY
